@@ -18,6 +18,7 @@ Definition k_totp_secret := bs "totp_secret".
 Definition k_totp_pending := bs "totp_pending".
 Definition k_sms_number := bs "sms_number".
 Definition k_sms_secret := bs "sms_secret".
+Definition k_sms_secret_number := bs "sms_secret_number".
 Definition k_sms_last := bs "sms_last".
 Definition k_sms_pending := bs "sms_pending".
 Definition k_rm := bs "rm".
@@ -187,6 +188,7 @@ Definition send_code_to_user (pid number : bytes) : M (option herr_ext) :=
           if now - last <? 10 then log [pid; number] ;;; ret (Some HRateLimit)
           else
             put_session k_sms_last (zdec now) ;;; put_session k_sms_secret code ;;;
+            put_session k_sms_secret_number number ;;;
             log [pid; number] ;;;
             try (backend KSendSMS (modify (fun h => h <| h_smss := h_smss h ++ [mkSms number code] |>)))
                 (fun r => match r with
@@ -196,6 +198,7 @@ Definition send_code_to_user (pid number : bytes) : M (option herr_ext) :=
       end
   | None =>
       put_session k_sms_last (zdec now) ;;; put_session k_sms_secret code ;;;
+      put_session k_sms_secret_number number ;;;
       log [pid; number] ;;;
       try (backend KSendSMS (modify (fun h => h <| h_smss := h_smss h ++ [mkSms number code] |>)))
           (fun r => match r with
@@ -614,11 +617,15 @@ Definition logout : M unit :=
   redirect (ro_ok p_logout_ok).
 
 (* ---- remember.Authenticate (remember/remember.go:96) -------------------------------- *)
+(* the nonce has a fixed size; the separator is the byte that precedes it *)
 Definition rm_parse_pid (raw : bytes) : option bytes :=
-  match bindex ";"%byte raw with
-  | None => None
-  | Some i => Some (firstn i raw)
-  end.
+  let n := length raw in
+  if (n <? 33)%nat then None
+  else let i := (n - 33)%nat in
+       match nth_error raw i with
+       | Some c => if Byte.eqb c ";"%byte then Some (firstn i raw) else None
+       | None => None
+       end.
 
 (* returns the PID it authenticated, if any; errors are logged and swallowed by the middleware *)
 Definition remember_authenticate : M unit :=
@@ -762,7 +769,7 @@ Definition email_verify_end (k : tfkind) : M unit :=
   vals <- read_values ;;
   let want := aget f_token vals in
   let given := aget k_2fa_token sess in
-  if negb (beqb want given) then redirect (ro_fail p_2fa_email_notok)
+  if bempty given || negb (beqb want given) then redirect (ro_fail p_2fa_email_notok)
   else
     del_session k_2fa_token ;;; put_session k_2fa_authed v_true ;;;
     redirect (ro_plain (c_mount cfg ++ bs "/2fa/" ++ kind_name k ++ bs "/setup")).
@@ -877,10 +884,12 @@ Definition totp_validate_post : M unit :=
   | None => log [u_pid u] ;;; respond (bs "totp2fa_validate") d_err
   | Some TSuccess =>
       st_save u ;;;
+      set_cuser u ;;;
+      handled <- fire EvBeforeAuth false ;;
+      if handled then ret tt else
       put_session k_uid (u_pid u) ;;; put_session k_twofactor (bs "totp") ;;;
       del_session k_halfauth ;;; del_session k_totp_pending ;;; del_session k_totp_secret ;;;
       log [u_pid u] ;;;
-      set_cuser u ;;;
       handled <- fire EvAfterAuth false ;;
       if handled then ret tt else redirect (ro_follow_redir p_login_ok)
   | Some _ =>
@@ -897,7 +906,7 @@ Definition smspage_name (p : smspage) : bytes :=
 
 Definition sms_setup_get : M unit :=
   '(u, _) <- current_user ;;
-  del_session k_sms_secret ;;; del_session k_sms_number ;;;
+  del_session k_sms_secret ;;; del_session k_sms_secret_number ;;; del_session k_sms_number ;;;
   respond (bs "sms2fa_setup") [].
 
 Definition sms_setup_post : M unit :=
@@ -939,7 +948,14 @@ Definition sms_validate_code (p : smspage) (u : user) (shared : bool) (input rc 
            end
          else
            let code := aget k_sms_secret sess in
-           if bempty code then fail ErrOther else ret (beqb input code, u)) ;;
+           if bempty code then fail ErrOther else
+           (* the code counts only for the number it was sent to (sms.go:396) *)
+           let want := match p with SPConfirm => aget k_sms_number sess | _ => u_sms u end in
+           let bound := match alookup k_sms_secret_number sess with
+                        | Some sent => beqb sent want
+                        | None => true       (* sessions from before the number was recorded *)
+                        end in
+           ret (beqb input code && bound, u)) ;;
   let '(verified, u) := vu in
   if negb verified then
     set_cuser u ;;;
@@ -957,7 +973,8 @@ Definition sms_validate_code (p : smspage) (u : user) (shared : bool) (input rc 
           let u' := u <| u_sms := phone |> <| u_recovery := encode_codes crypted |> in
           store_back u' shared ;;;
           st_save u' ;;;
-          del_session k_2fa_authed ;;; del_session k_sms_secret ;;; del_session k_sms_number ;;;
+          del_session k_2fa_authed ;;; del_session k_sms_secret ;;; del_session k_sms_secret_number ;;;
+          del_session k_sms_number ;;;
           log [u_pid u] ;;;
           set_cuser u' ;;;
           respond (bs "sms2fa_confirm_success") [(bs "recovery_codes", DList codes)]
@@ -971,10 +988,13 @@ Definition sms_validate_code (p : smspage) (u : user) (shared : bool) (input rc 
       log [u_pid u] ;;;
       respond (bs "sms2fa_remove_success") []
   | SPValidate =>
+      set_cuser u ;;;
+      handled <- fire EvBeforeAuth false ;;
+      if handled then ret tt else
       put_session k_uid (u_pid u) ;;; put_session k_twofactor (bs "sms") ;;;
       del_session k_halfauth ;;; del_session k_sms_pending ;;; del_session k_sms_secret ;;;
+      del_session k_sms_secret_number ;;;
       log [u_pid u] ;;;
-      set_cuser u ;;;
       handled <- fire EvAfterAuth false ;;
       if handled then ret tt else redirect (ro_follow_redir p_login_ok)
   end.
@@ -1101,7 +1121,8 @@ Definition expire_mw : M amap :=
    keys it can read *)
 Definition probe_keys : list bytes :=
   [k_uid; k_halfauth; k_last_action; k_twofactor; k_2fa_token; k_2fa_authed; k_oauth_state; k_oauth_params;
-   k_totp_secret; k_totp_pending; k_sms_number; k_sms_secret; k_sms_last; k_sms_pending; bs "w1"; bs "w2"].
+   k_totp_secret; k_totp_pending; k_sms_number; k_sms_secret; k_sms_secret_number; k_sms_last; k_sms_pending;
+   bs "w1"; bs "w2"].
 Definition app_handler (sess : amap) : M unit :=
   pid <- current_user_id sess ;;
   write_resp (RespPage 200 (bs "app") [(bs "pid", DStr pid); (bs "keys", DList (filter (fun k => ahas k sess) probe_keys))]).
